@@ -155,7 +155,23 @@ func (st *State) heapSet(name, srt string, t Term) {
 	if _, ok := st.heap[name]; !ok {
 		st.heapInit(name, srt)
 	}
+	// terms are strings (no sharing): name large ones to avoid blow-up
+	if len(t) > 240 {
+		c := st.fx.freshConst(name+"@v", srt)
+		st.pc = append(st.pc, "(= "+c+" "+t+")")
+		t = c
+	}
 	st.heap[name] = t
+}
+
+// nameIfLarge binds a large value term to a fresh constant.
+func (st *State) nameIfLarge(t Term, srt string) Term {
+	if len(t) <= 320 {
+		return t
+	}
+	c := st.fx.freshConst("v", srt)
+	st.pc = append(st.pc, "(= "+c+" "+t+")")
+	return c
 }
 
 func (st *State) snapshotHeap() map[string]Term {
